@@ -353,33 +353,7 @@ def run(prog, ctx):
     from ..hats import check_support_enumeration
     ctx.floor("C17.D4.support", check_support_enumeration(prog, ctx, "C17.D4"), 1, "floor/ceil enumerations of the hats around a sample")
 
-    # ------------------------------------------------------------------ D5 per-dimension caches are distinct objects
-    def _mutable(e):
-        return isinstance(e, (ast.Dict, ast.List, ast.Set, ast.ListComp, ast.DictComp, ast.SetComp)) or \
-            (isinstance(e, ast.Call) and isinstance(e.func, ast.Name) and e.func.id in ("dict", "list", "set", "defaultdict", "OrderedDict"))
-    n5 = 0
-    for ci in prog.cls(DE).mro:
-        if ci.module.name != "GridOperation":
-            continue
-        for f in ci.methods.values():
-            for s_ in R.self_stores(f):
-                v = s_.value
-                if s_.kind != "plain" or v is None:
-                    continue
-                if isinstance(v, ast.BinOp) and isinstance(v.op, ast.Mult):
-                    for side in (v.left, v.right):
-                        if isinstance(side, ast.List) and len(side.elts) == 1 and _mutable(side.elts[0]):
-                            n5 += 1
-                            ctx.touch(f)
-                            ctx.violation("C17.D5", R.key_of(f, "distinct-per-dimension:%s" % s_.attr), f.loc(s_.stmt),
-                                          "`%s` makes every dimension share ONE mutable object: what is cached for one dimension is returned for "
-                                          "another (list multiplication copies the reference)" % src(s_.stmt))
-                elif isinstance(v, ast.ListComp) and _mutable(v.elt):
-                    n5 += 1
-                    ctx.touch(f)
-                    ctx.ok("C17.D5", R.key_of(f, "distinct-per-dimension:%s" % s_.attr), f.loc(s_.stmt),
-                           "one fresh object per dimension (comprehension)")
-    ctx.floor("C17.D5", n5, 1, "per-dimension cache containers of the density estimation")
+    check_per_dimension_caches(prog, ctx, "C17.D5")
     # ------------------------------------------------------------------ D6
     check_index_ranges_cover_their_ends(prog, ctx)
 
@@ -432,6 +406,37 @@ def run(prog, ctx):
 
 
 # ---------------------------------------------------------------------------------------------------------------- D6
+def check_per_dimension_caches(prog, ctx, rule="C17.D5"):
+    """per-dimension caches (data bins) are distinct objects per dimension: built by a comprehension, never by multiplying a list that
+    holds one mutable"""
+    def _mutable(e):
+        return isinstance(e, (ast.Dict, ast.List, ast.Set, ast.ListComp, ast.DictComp, ast.SetComp)) or \
+            (isinstance(e, ast.Call) and isinstance(e.func, ast.Name) and e.func.id in ("dict", "list", "set", "defaultdict", "OrderedDict"))
+    n5 = 0
+    for ci in prog.cls(DE).mro:
+        if ci.module.name != "GridOperation":
+            continue
+        for f in ci.methods.values():
+            for s_ in R.self_stores(f):
+                v = s_.value
+                if s_.kind != "plain" or v is None:
+                    continue
+                if isinstance(v, ast.BinOp) and isinstance(v.op, ast.Mult):
+                    for side in (v.left, v.right):
+                        if isinstance(side, ast.List) and len(side.elts) == 1 and _mutable(side.elts[0]):
+                            n5 += 1
+                            ctx.touch(f)
+                            ctx.violation(rule, R.key_of(f, "distinct-per-dimension:%s" % s_.attr), f.loc(s_.stmt),
+                                          "`%s` makes every dimension share ONE mutable object: what is cached for one dimension is returned for "
+                                          "another (list multiplication copies the reference)" % src(s_.stmt))
+                elif isinstance(v, ast.ListComp) and _mutable(v.elt):
+                    n5 += 1
+                    ctx.touch(f)
+                    ctx.ok(rule, R.key_of(f, "distinct-per-dimension:%s" % s_.attr), f.loc(s_.stmt),
+                           "one fresh object per dimension (comprehension)")
+    ctx.floor(rule, n5, 1, "per-dimension cache containers of the density estimation")
+
+
 def check_index_ranges_cover_their_ends(prog, ctx):
     """find_data_in_domain scans the sorted samples of a dimension for the first position `lower` and the last position `upper` inside
     the support, stores the pair widened by a margin and clamped,  [max(lower - c3, 0), min(upper + c1, len(S) - c2)],  in the data
